@@ -43,7 +43,7 @@ def all_services() -> Dict[str, Dict[str, Any]]:
     for lay in ref.LAYOUTS:
         for typ in ref.VALUES:
             n = f"X_{lay}_{typ}"
-            s[n] = {"name": n, "did": 0xF200 + i, "layout": lay, "type": typ}
+            s[n] = {"name": n, "did": 0xF200 + 0x100 * (i // 0x80) + i % 0x80, "layout": lay, "type": typ}  # bit 7 is OWN_DID_FLAG
             i += 1
     return s
 
@@ -93,6 +93,11 @@ class Family:
         used = sorted({m["svc"] for c in pool for p in c["patterns"] for m in p} | {"A", "B"})
         self.services = {n: SERVICES[n] for n in used}
         self.objs: List[Any] = []
+        # third mode (cache on, replies delivered in one reused mutable buffer): for the families whose lists ask a
+        # cached request again after another request was answered; not for the layout x type families
+        # (the two big thorough pools -- triples with 40 shapes, own-service with lists of three -- are explored in this mode
+        # by the quick tier's smaller bounds only)
+        self.buffer_mode = name in ("main", "deep", "triples", "quads", "own-service", "base", "neg-target") and self.nlists() <= 30000
 
     def nlists(self) -> int:
         return sum(len(self.pool)**n for n in range(self.maxlen + 1))
@@ -144,7 +149,9 @@ def families(quick: bool) -> List[Family]:
     for lay in ref.LAYOUTS:
         for typ in ref.VALUES:
             if quick and lay in ref.EXTRA_LAYOUTS and typ not in QUICK_EXTRA_TYPES:
-                continue  # quick: the extra field arrangements / nested paths only for three types (thorough: all nine)
+                continue  # quick: the extra field arrangements / nested paths / two-response services only for three types
+            if quick and typ in ref.LOWER_CASE_TYPES and lay not in ("top", "struct", "field"):
+                continue  # quick: lower-case spelled expected values at an SNREF leaf, in a structure and in a field
             x = f"X_{lay}_{typ}"
             alpha = [mp(x, ref.expected_text(typ, ref.VALUES[typ]["V1"])), mp(x, ref.expected_text(typ, ref.VALUES[typ]["V2"])), mp("A", "1")]
             pool = [ev(s) for s in shapes(alpha, 1, 2)]
@@ -204,12 +211,15 @@ def impl_state(m: Any, gen: Any, objs: Sequence[Any]) -> Any:
     return (pos, cache, recent, st)
 
 
-def drive(objs: Sequence[Any], use_cache: bool, answer_for: Any, reply: Any, observe: bool = True) -> Outcome:
+def drive(objs: Sequence[Any], use_cache: bool, answer_for: Any, reply: Any, observe: bool = True, reuse_buffer: bool = False) -> Outcome:
     """One run of request_loop()/evaluate() on a FRESH matcher. answer_for(key) -> answer symbol (raises _Foreign for a
-    request that is not an identification request of the list); reply(key, answer) -> bytes."""
+    request that is not an identification request of the list); reply(key, answer) -> bytes.
+    reuse_buffer: the tester hands every reply to evaluate() in ONE mutable receive buffer (a bytearray that is
+    overwritten when the next reply arrives, as with recv_into); the buffer is left alone until the next request."""
     from odxtools.variantmatcher import VariantMatcher
     out = Outcome()
     m = VariantMatcher(list(objs), use_cache=use_cache)
+    rxbuf = bytearray()
     try:
         gen = m.request_loop()
         if observe:
@@ -223,7 +233,11 @@ def drive(objs: Sequence[Any], use_cache: bool, answer_for: Any, reply: Any, obs
                 out.foreign = key
                 gen.close()
                 return out
-            m.evaluate(reply(key, a))
+            if reuse_buffer:
+                rxbuf[:] = reply(key, a)
+                m.evaluate(rxbuf)
+            else:
+                m.evaluate(reply(key, a))
             out.trace.append((key, a))
             out.after = a
             if observe:
@@ -242,7 +256,8 @@ def drive(objs: Sequence[Any], use_cache: bool, answer_for: Any, reply: Any, obs
     return out
 
 
-def explore_tree(objs: Sequence[Any], keys: Sequence[str], use_cache: bool, reply: Any) -> List[Tuple[Dict[str, str], Outcome]]:
+def explore_tree(objs: Sequence[Any], keys: Sequence[str], use_cache: bool, reply: Any,
+                 reuse_buffer: bool = False) -> List[Tuple[Dict[str, str], Outcome]]:
     """Lazy enumeration of all ECU functions over `keys`: depth-first over the answers to requests seen for the first
     time; each leaf is one complete run on a fresh matcher (replay)."""
     leaves: List[Tuple[Dict[str, str], Outcome]] = []
@@ -268,7 +283,7 @@ def explore_tree(objs: Sequence[Any], keys: Sequence[str], use_cache: bool, repl
             assign[key] = a
             return a
 
-        out = drive(objs, use_cache, answer_for, reply)
+        out = drive(objs, use_cache, answer_for, reply, reuse_buffer=reuse_buffer)
         leaves.append((dict(assign), out))
     return leaves
 
@@ -307,10 +322,13 @@ def mixed_addressing(ecu: Dict[str, str]) -> bool:
     return any(k.startswith("P:") and ("F:" + k[2:]) in ecu and ecu["F:" + k[2:]] != a for k, a in ecu.items())
 
 
-def judge_run(fam: str, use_cache: bool, out: Outcome, keys: Sequence[str]) -> List[Tuple[str, str]]:
+MODES = (("cache", True, False), ("nocache", False, False), ("cache+reused-buffer", True, True))
+
+
+def judge_run(fam: str, use_cache: bool, out: Outcome, keys: Sequence[str], mode: Optional[str] = None) -> List[Tuple[str, str]]:
     """Oracles that look at one run only (independent of the undecided part of the ECU function)."""
     probs: List[Tuple[str, str]] = []
-    mode = "cache" if use_cache else "nocache"
+    mode = mode or ("cache" if use_cache else "nocache")
     if out.foreign is not None:
         probs.append((f"C14/foreign-request/{fam}", f"[{mode}] yielded {out.foreign}, identification requests of the candidates are {list(keys)}"))
         return probs
@@ -363,17 +381,32 @@ def judge_verdicts(fam: str, exp: Optional[int], got_cache: Outcome, got_nocache
     return probs
 
 
+def judge_buffer(fam: str, exp: Optional[int], got_cache: Outcome, got_buf: Outcome, ecu: Dict[str, str]) -> List[Tuple[str, str]]:
+    """The tester's receive buffer is the tester's: re-using it for the next reply must not change the outcome."""
+    if got_buf.error is not None or got_buf.foreign is not None or not got_buf.mv_is_candidate:
+        return []  # reported by judge_run
+    if got_buf.verdict == exp:
+        return []
+    if got_cache.error is None and got_cache.foreign is None and got_cache.verdict != exp:
+        return []  # wrong already with immutable replies: reported as verdict / cache-changes-verdict
+    return [(f"C14/reused-receive-buffer-changes-verdict/{fam}",
+             f"replies handed over in one reused bytearray, cache on: candidate {got_buf.verdict}; with immutable replies: candidate "
+             f"{got_cache.verdict} (reference {exp}); ecu {ecu}; requests {[k for k, _ in got_buf.trace]}")]
+
+
 # ---------------------------------------------------------------------------------------------
-# one candidate list: both modes, all ECU functions
+# one candidate list: all modes, all ECU functions
 # ---------------------------------------------------------------------------------------------
 def check_list(part: Part, fam: Family, idxs: Tuple[int, ...], cand_memo: Dict[Any, bool]) -> None:
     cands = [fam.pool[i] for i in idxs]
     objs = [fam.objs[i] for i in idxs]
     keys = ref.request_keys(cands, fam.services)
     reply = _REPLY[fam.name]
-    verdicts: Dict[bool, Dict[Tuple[str, ...], Outcome]] = {}
-    for use_cache in (True, False):
-        leaves = explore_tree(objs, keys, use_cache, reply)
+    verdicts: Dict[str, Dict[Tuple[str, ...], Outcome]] = {}
+    for mode, use_cache, reuse in MODES:
+        if reuse and not fam.buffer_mode:
+            continue
+        leaves = explore_tree(objs, keys, use_cache, reply, reuse_buffer=reuse)
         table: Dict[Tuple[str, ...], Outcome] = {}
         nodes = set()  # prefixes of (request, answer) sequences = inner nodes of the exploration tree
         ends = set()  # finished runs (verdict states)
@@ -388,8 +421,8 @@ def check_list(part: Part, fam: Family, idxs: Tuple[int, ...], cand_memo: Dict[A
             for a in {a for _, a in out.trace}:
                 part.add("answers_used", a)
             if out.trace:
-                part.add("nontrivial", digest((fam.name, use_cache, [(k, a) for k, a in out.trace], out.verdict, out.error)))
-            for key, detail in judge_run(fam.name, use_cache, out, keys):
+                part.add("nontrivial", digest((fam.name, mode, [(k, a) for k, a in out.trace], out.verdict, out.error)))
+            for key, detail in judge_run(fam.name, use_cache, out, keys, mode):
                 ecu = dict(assign)
                 for k in keys:
                     ecu.setdefault(k, ANSWERS[0])
@@ -404,13 +437,13 @@ def check_list(part: Part, fam: Family, idxs: Tuple[int, ...], cand_memo: Dict[A
                 table[fkey] = out
         if len(table) != len(ANSWERS)**len(keys):
             raise HarnessError(f"lazy ECU enumeration covered {len(table)} of {len(ANSWERS)**len(keys)} functions for {idxs} in {fam.name}")
-        verdicts[use_cache] = table
+        verdicts[mode] = table
         part.count("states", len(nodes) + len(ends))
         part.count("transitions", len(nodes) - 1)  # every non-root prefix is reached by answering one request
         part.count("impl_states", len(impl))
     # the reference, for every total ECU function
-    for fkey, oc in verdicts[True].items():
-        on = verdicts[False][fkey]
+    for fkey, oc in verdicts["cache"].items():
+        on = verdicts["nocache"][fkey]
         ecu = dict(zip(keys, fkey))
         exp = None
         for i, pi in enumerate(idxs):
@@ -427,6 +460,10 @@ def check_list(part: Part, fam: Family, idxs: Tuple[int, ...], cand_memo: Dict[A
             part.count("functions_where_cache_saved_requests")
         for key, detail in judge_verdicts(fam.name, exp, oc, on, ecu):
             part.violation(key, make_case(fam, cands, ecu), detail)
+        if fam.buffer_mode:
+            part.count("evaluations", 1)
+            for key, detail in judge_buffer(fam.name, exp, oc, verdicts["cache+reused-buffer"][fkey], ecu):
+                part.violation(key, make_case(fam, cands, ecu), detail)
 
 
 def make_case(fam: Family, cands: List[Dict[str, Any]], ecu: Dict[str, str]) -> Dict[str, Any]:
@@ -480,10 +517,11 @@ def run(ctx: Ctx) -> None:
         units.append((f.name, -1, f.maxlen))
         units.extend((f.name, i, f.maxlen) for i in range(len(f.pool)))
     ctx.bounds = {"families": {f.name: {"pool": len(f.pool), "max_list_length": f.maxlen, "lists": f.nlists(), "what": f.what} for f in fams},
-                  "ecu_answer_alphabet": list(ANSWERS), "cache": [True, False],
+                  "ecu_answer_alphabet": list(ANSWERS),
+                  "modes": [m for m, _, _ in MODES], "reused_buffer_mode_families": sorted(f.name for f in fams if f.buffer_mode),
                   "replies": {"V1/V2": "62 <did> <payload>", "NEG": "7F 22 31", "BAD": "62 <did high byte> (truncated)"}}
     ctx.rule = ("every candidate list of every family x every function from the list's identification requests to "
-                "{V1,V2,NEG,BAD} x cache on/off; non-trivial = distinct (family, cache flag, sequence of (request, answer), "
+                "{V1,V2,NEG,BAD} x {cache, no cache, cache + reused receive buffer}; non-trivial = distinct (family, mode, sequence of (request, answer), "
                 "verdict) behaviours with at least one request")
     ctx.assumptions = [
         "strict mode (odxtools.exceptions.strict_mode = True); evaluate() is called exactly once per yielded request",
@@ -491,7 +529,12 @@ def run(ctx: Ctx) -> None:
         "bytes differently under physical and functional addressing carry the key suffix /addressing-sensitive-ecu",
         "undecodable reply = a truncated positive response that no response of the service can decode (a reply of the right "
         "length with wrong constants is decoded with a warning by design -- DON'T-CARE, not generated); an empty reply is not generated",
-        "expected values in canonical spelling only (decimal without leading zeros, upper-case hex, repr of the float, 0x.. for DTCs)",
+        "expected values: decimal without leading zeros, repr of the float, hex for byte fields and 0x.. for DTCs in upper case and "
+        "(types byteslc / dtclc) in lower case -- a hex text denotes bytes / a number, its letter case carries no meaning",
+        "the tester may hand every reply to evaluate() in one mutable receive buffer that it overwrites when the next reply "
+        "arrives (mode cache+reused-buffer); the buffer is never touched between evaluate() and the next yielded request",
+        "a service with two positive responses that both decode the reply (short one tolerating trailing bytes): the decoded value "
+        "of a parameter is the one of the response object that exhibits it (layouts tworesp / tworesp_r)",
         "SNPATHREF through a TABLE-STRUCT parameter follows the odxtools reading <table-struct>.<parameter of the row structure>",
         "candidate lists are homogeneous (all ECU variants or all base variants), as the constructor's type says",
     ]
@@ -537,10 +580,11 @@ def replay(case: Any) -> List[Tuple[str, str]]:
         return ecu[key]
 
     outs = {}
-    for use_cache in (True, False):
-        out = drive(objs, use_cache, answer_for, reply, observe=False)
-        outs[use_cache] = out
-        probs.extend(judge_run(fam, use_cache, out, keys))
+    for mode, use_cache, reuse in MODES:
+        out = drive(objs, use_cache, answer_for, reply, observe=False, reuse_buffer=reuse)
+        outs[mode] = out
+        probs.extend(judge_run(fam, use_cache, out, keys, mode))
     exp = ref.first_match(cands, ecu, services)
-    probs.extend(judge_verdicts(fam, exp, outs[True], outs[False], ecu))
+    probs.extend(judge_verdicts(fam, exp, outs["cache"], outs["nocache"], ecu))
+    probs.extend(judge_buffer(fam, exp, outs["cache"], outs["cache+reused-buffer"], ecu))
     return probs
